@@ -289,6 +289,27 @@ def check(ctx, prefixes=SCOPE_PREFIXES, P="C11", ids=None):
         ap = model.func("apischema.validation.errors.apply_aliaser")
         ok = any(isinstance(n, ast.If) and "AliasedStr" in norm(n.test) and any(isinstance(x, ast.Call) and dotted(x.func) == "aliaser" for s in n.body for x in ast.walk(s)) for n in walk_no_nested(ap.node))
         ctx.check(ok, "C11.R5", ap.qualname, ap.node.body[0], "apply_aliaser no longer aliases AliasedStr keys yielded by validators", ap, ap.node, detail="isinstance(key, AliasedStr) -> aliaser(key)")
+        # the "something was aliased" flag is monotone, the aliased tree is what is returned when it is set, every child is kept
+        flag = None
+        for r in ast.walk(ap.node):
+            if isinstance(r, ast.Return) and isinstance(r.value, ast.IfExp) and isinstance(r.value.test, ast.Name):
+                flag = r.value.test.id
+                ctx.check("ValidationError(" in norm(r.value.body) and norm(r.value.orelse) == ap.params[0], "C11.R5", ap.qualname + ":result", r, "apply_aliaser does not return the rebuilt error when something was aliased (or the original otherwise)", ap, r, detail="ValidationError(messages, aliased_children) if aliased else error")
+        ctx.check(flag is not None, "C11.R5", ap.qualname + ":flag", ap.node.body[0], "apply_aliaser: the flag deciding between the rebuilt and the original error was not recognised", ap, ap.node, nontrivial=False)
+        if flag is not None:
+            for lp in [n for n in ast.walk(ap.node) if isinstance(n, ast.For)]:
+                for a in ast.walk(lp):
+                    bad = None
+                    if isinstance(a, ast.Assign) and norm(a.targets[0]) == flag:
+                        v = a.value
+                        mono = (isinstance(v, ast.Constant) and v.value is True) or (isinstance(v, ast.BoolOp) and isinstance(v.op, ast.Or) and any(norm(x) == flag for x in v.values)) or (isinstance(v, ast.BinOp) and isinstance(v.op, ast.BitOr) and flag in (norm(v.left), norm(v.right)))
+                        bad = None if mono else a
+                    if isinstance(a, ast.AugAssign) and norm(a.target) == flag and not isinstance(a.op, ast.BitOr):
+                        bad = a
+                    if isinstance(a, (ast.Assign, ast.AugAssign)) and norm(a.targets[0] if isinstance(a, ast.Assign) else a.target) == flag:
+                        ctx.check(bad is None, "C11.R5", ap.qualname + f":monotone:{norm(a)[:30]}", a, f"`{short(a, 60)}` can reset `{flag}` inside the loop over the children: once a sibling key has been aliased the rebuilt error must be returned, otherwise the aliased keys of earlier siblings are lost (the loc keeps the internal name)", ap, a, detail="True / |= / or-accumulation")
+            stores = [n for n in ast.walk(ap.node) if isinstance(n, ast.Subscript) and isinstance(n.ctx, ast.Store)]
+            ctx.check(len(stores) == 1 and isinstance(stores[0].value, ast.Name), "C11.R5", ap.qualname + ":children", stores[0] if stores else ap.node.body[0], "apply_aliaser does not store every (aliased key, aliased child) pair", ap, ap.node, detail="aliased_children[key] = child2")
         vd = model.func("apischema.validation.validators.validate")
         ok = any(isinstance(n, ast.Call) and dotted(n.func) == "apply_aliaser" and len(n.args) >= 2 and norm(n.args[1]) == "aliaser" for n in walk_no_nested(vd.node))
         ctx.check(ok, "C11.R5", vd.qualname + ":apply_aliaser", vd.node.body[0], "validate() does not pass validator errors through apply_aliaser", vd, vd.node, detail="err = apply_aliaser(e, aliaser)")
@@ -383,6 +404,7 @@ def fixtures(ctx):
 
 
 def mutants(mb):
+    mb.add_text("apply-aliaser-flag-overwritten", "apischema/validation/errors.py", "        aliased |= child2 is not child\n", "        aliased = child2 is not child\n", "C11.R5", "monotone")
     mb.add_text("deser-field-slot-alias", "apischema/deserialization/__init__.py", "                        Field(\n                            field.name,\n", "                        Field(\n                            field.alias,\n", "C11.R6", "Field.name")
     mb.add_text("ser-field-slot-alias", "apischema/serialization/__init__.py", "                base_field = ComplexField(\n                    field.name,\n", "                base_field = ComplexField(\n                    field.alias,\n", "C11.R6", ".name")
     D = "apischema/deserialization/__init__.py"
